@@ -1,5 +1,5 @@
 //@unit channel_cp
-//@props C03 C04 C10 C11
+//@props C03 C04 C05 C06 C10 C11
 // Contracts on the counterparty-commitment side of Channel (vls-core/src/channel.rs):
 // counterparty revocation and phase-2 signing of counterparty commitments.
 use vstd::prelude::*;
@@ -57,6 +57,13 @@ impl Channel {
                 (pos < o.len() && f == o.update(pos as int, (sk_bytes(*old_secret), idx)))
                 || (pos == o.len() && f == o.push((sk_bytes(*old_secret), idx))))
         }),                                                                                                          //[C03.cprevoke.store-step]
+        // a secret that is new (below every index seen so far) is recorded in the store that later revocations are checked against
+        r.is_ok() && cp_strict() && old(self).enforcement_state.counterparty_secrets.is_some()
+            && ((INITIAL_COMMITMENT_NUMBER - revoke_num) as u64) < min_seen(old(self).enforcement_state.counterparty_secrets->Some_0.old_secrets@) ==> ({
+            let f = final(self).enforcement_state.counterparty_secrets->Some_0.old_secrets@;
+            let idx = (INITIAL_COMMITMENT_NUMBER - revoke_num) as u64;
+            exists|pos: u8| place_spec(idx, pos) && pos < f.len() && f[pos as int] == (sk_bytes(*old_secret), idx)
+        }),                                                                                                          //[C03.cprevoke.new-secret-stored]
         // only the revocation counter, the cleared previous info and the secret store may change
         r.is_ok() ==> final(self).enforcement_state == (EnforcementState {
             counterparty_secrets: final(self).enforcement_state.counterparty_secrets,
@@ -76,7 +83,7 @@ impl Channel {
     ensures r@ == oic_spec(offered_htlcs@, received_htlcs@),
 //@end
 
-//@fn vls-core/src/channel.rs :: impl Channel :: sign_counterparty_commitment_tx_phase2 props=C03,C04,C10,C11
+//@fn vls-core/src/channel.rs :: impl Channel :: sign_counterparty_commitment_tx_phase2 props=C03,C04,C05,C06,C10,C11
     requires
         commitment_number < INITIAL_COMMITMENT_NUMBER, chan_wf(*old(self)),
         htlcs_msat_fit(offered_htlcs@), htlcs_msat_fit(received_htlcs@),
@@ -87,6 +94,9 @@ impl Channel {
             cp_ctx_spec(old(self).keys, old(self).setup, *remote_per_commitment_point, commitment_number, feerate_per_kw,
                 to_holder_value_sat, to_counterparty_value_sat, oic_spec(offered_htlcs@, received_htlcs@))),           //[C04.sign-cp-phase2.binds-rebuilt-tx]
         // C03: n is signed only if everything below n-1 is revoked; the counter moves by at most one
+        // C05: no counterparty commitment is signed for a channel above the maximum size
+        r.is_ok() && vx_strict(T_policy_funding_max) ==>
+            old(self).setup.channel_value_sat <= chan_validator_of(old(self).id0).vp_max_channel_size_sat(),             //[C05.sign-cp.channel-size-max]
         r.is_ok() && cp_strict() ==> commitment_number <= old(self).enforcement_state.next_counterparty_revoke_num + 1,   //[C03.sign-cp.revoked-prefix]
         r.is_ok() && cp_strict() ==> cp_commit_guard(old(self).enforcement_state, (commitment_number + 1) as u64),        //[C03.sign-cp.guard]
         r.is_ok() && cp_strict() && vx_strict(T_policy_commitment_retry_same)
@@ -96,14 +106,20 @@ impl Channel {
         r.is_ok() ==> exists|info2: CommitmentInfo2|
             info2_built(info2, true, to_holder_value_sat, to_counterparty_value_sat, offered_htlcs@, received_htlcs@, feerate_per_kw)
             && final(self).enforcement_state == es_set_cp_commit(old(self).enforcement_state, (commitment_number + 1) as u64,
-                *remote_per_commitment_point, info2),                                                              //[C03.sign-cp.frame]
+                *remote_per_commitment_point, info2)                                                               //[C03.sign-cp.frame]
+            // C06: the update was validated against, and then recorded in, the node's payment ledger under this channel's
+            // id with the summaries of this state and the new commitment
+            && node_validated(old(self).id0, pay_in_spec(old(self).enforcement_state, None, Some(info2)),
+                pay_out_spec(old(self).enforcement_state, None, Some(info2)))                                       //[C06.sign-cp.node-validated]
+            && node_applied(old(self).id0, pay_in_spec(old(self).enforcement_state, None, Some(info2)),
+                pay_out_spec(old(self).enforcement_state, None, Some(info2)), Some(info2)),                         //[C06.sign-cp.node-applied]
         r.is_ok() && cp_strict() && cp_inv(old(self).enforcement_state) ==> cp_inv(final(self).enforcement_state), //[C03.sign-cp.keeps-window]
         r.is_err() ==> final(self).enforcement_state == old(self).enforcement_state
             && final(self).persisted == old(self).persisted,                                                       //[C10.sign-cp.err-frame]
         r.is_ok() ==> final(self).persisted@ == final(self).enforcement_state,                                     //[C11.sign-cp.persisted]
 //@end
 
-//@fn vls-core/src/channel.rs :: impl Channel :: sign_counterparty_commitment_tx props=C03,C04,C10,C11
+//@fn vls-core/src/channel.rs :: impl Channel :: sign_counterparty_commitment_tx props=C03,C04,C05,C06,C10,C11
     requires
         commitment_number < INITIAL_COMMITMENT_NUMBER, chan_wf(*old(self)),
         htlcs_msat_fit(offered_htlcs@), htlcs_msat_fit(received_htlcs@),
@@ -123,7 +139,15 @@ impl Channel {
                         old(self).setup.channel_value_sat, EcdsaSighashType::All)), ldk_funding_key(old(self).keys))   //[C04.sign-cp-phase1.signs-rebuilt-tx]
                 && final(self).enforcement_state == es_set_cp_commit(old(self).enforcement_state, (commitment_number + 1) as u64,
                     *remote_per_commitment_point, info2)                                                            //[C03.sign-cp-phase1.frame]
+                // C06: the update was validated against, and then recorded in, the node's payment ledger under this
+                // channel's id with the summaries of this state and the new commitment
+                && node_validated(old(self).id0, pay_in_spec(old(self).enforcement_state, None, Some(info2)),
+                    pay_out_spec(old(self).enforcement_state, None, Some(info2)))                                   //[C06.sign-cp-phase1.node-validated]
+                && node_applied(old(self).id0, pay_in_spec(old(self).enforcement_state, None, Some(info2)),
+                    pay_out_spec(old(self).enforcement_state, None, Some(info2)), Some(info2))                      //[C06.sign-cp-phase1.node-applied]
             }),
+        r.is_ok() && vx_strict(T_policy_funding_max) ==>
+            old(self).setup.channel_value_sat <= chan_validator_of(old(self).id0).vp_max_channel_size_sat(),             //[C05.sign-cp-phase1.channel-size-max]
         r.is_ok() && cp_strict() ==> commitment_number <= old(self).enforcement_state.next_counterparty_revoke_num + 1,   //[C03.sign-cp-phase1.revoked-prefix]
         r.is_ok() && cp_strict() ==> cp_commit_guard(old(self).enforcement_state, (commitment_number + 1) as u64),        //[C03.sign-cp-phase1.guard]
         r.is_err() ==> final(self).enforcement_state == old(self).enforcement_state
